@@ -194,8 +194,8 @@ fn node_scenario(a: &[&str]) -> String {
                     let (plain, speeds) = parse_algos(p[9]);
                     MockSocket::set_nat(p.len() > 10 && p[10] == "nat");
                     if p.len() > 10 && p[10].starts_with("adv") {
-                        // advertise_addresses: the node reports another address as one of its own
-                        c.advertise_addresses = vec![format!("[::]:{}", &p[10][3..])];
+                        // advertise_addresses: the node reports further addresses as its own (adv<j>+<k>+...)
+                        c.advertise_addresses = p[10][3..].split('+').map(|a| format!("[::]:{}", a)).collect();
                     }
                     if p.len() > 10 && p[10] == "hkf" {
                         // a lasting local fault in a housekeeping step: a beacon file that cannot be read (housekeep then returns
